@@ -359,6 +359,15 @@ Theorem set_contracts_table : forall (s : state) (l : list (Z * Z)) (c : Z),
 Proof. exact set_contracts_table_thm. Qed.
 Print Assumptions set_contracts_table.
 
+(** Observation made precise: a sale for an address that already has an account is refused (clause 2
+    demands it) and changes nothing; one unit sent to the address beforehand is enough (Example
+    ex_dust_griefing; the attestation is consumed all the same: attested_sale_effect). *)
+Theorem sale_refused_once_account_exists : forall (s : state) (chain contract : Z) (client : key) (amount : Z),
+  acct s escrow = Some Module -> acct s (fst client) <> None ->
+  snd (step s (Sale chain contract client amount)) <> Ok /\ fst (step s (Sale chain contract client amount)) = s.
+Proof. exact sale_refused_once_account_exists_thm. Qed.
+Print Assumptions sale_refused_once_account_exists.
+
 (** A premise that is needed.  [op_wf] (premise of escrow_covers_licences) asks, among others,
     that governance does not configure the module account itself as a funder; the code does not
     refuse that, and then the escrow stops covering the licences: *)
